@@ -518,13 +518,15 @@ package controller
 // ---------------------------------------------------------------- scaleNodeGroup: one scan of one group
 
 // Inv(g): what every scan relies on (established by NewController, preserved by every scan).
-//@ spec groupInv(g *NodeGroupState) bool = g != nil && g.NodeGroupLister != nil && g.NodeGroupLister.Pods != nil && g.NodeGroupLister.Nodes != nil && durCacheOK(optsOf(g)) && g.scaleUpLock.minimumLockDuration == durOf(g.Opts.ScaleUpCoolDownPeriod)
+//@ opaque spec groupInv(g *NodeGroupState) bool = g != nil && g.NodeGroupLister != nil && g.NodeGroupLister.Pods != nil && g.NodeGroupLister.Nodes != nil && durCacheOK(optsOf(g)) && g.scaleUpLock.minimumLockDuration == durOf(g.Opts.ScaleUpCoolDownPeriod)
 // lockedAt(g, c): the cool-down of the last accepted scale-up has not elapsed at clock reading c
 //@ spec lockedAt(g *NodeGroupState, c int) bool = sat64(c - g.scaleUpLock.lockTime) < g.scaleUpLock.minimumLockDuration
 
 //@ func (*Controller).scaleNodeGroup(c, nodegroup, nodeGroup) (delta, err)
 //@   requires c != nil && c.Client != nil && c.cloudProvider != nil && groupInv(nodeGroup)
-//@   modifies Jlen, Jkind, Jname, Jnode, Jok, Jesc, Jnum, Jerr, clock, nTaintOK, nUntaintOK, getSeen, LNb, LNo, LNl, LNby, LPb, LPo, LPl
+//@   modifies Jlen, Jkind, Jname, Jnode, Jok, Jesc, Jnum, Jerr, clock, nTaintOK, nUntaintOK, getSeen, LNb, LNo, LNl, LNby, LPb, LPo, LPl, nScans
+//@   ensures nScans == old(nScans) + 1
+//@   ensures forall g2 *NodeGroupState :: allocated(g2) && g2 != nodeGroup && old(groupInv(g2)) ==> groupInv(g2)
 //@   ensures [C19] forall k :: old(Jlen) <= k && k < Jlen && Jkind[k] == C_DELNODE && isNotInGroup(Jerr[k]) ==> isNotInGroup(err)
 //@   modifies nodeGroup.taintTracker, elems(nodeGroup.taintTracker), nodeGroup.NodeInfoMap, nodeGroup.cpuCapacity, nodeGroup.memCapacity, nodeGroup.lastScaleOut
 //@   modifies nodeGroup.scaleUpLock.isLocked, nodeGroup.scaleUpLock.requestedNodes, nodeGroup.scaleUpLock.lockTime
@@ -536,3 +538,38 @@ package controller
 //@   ensures [C09] !dry(c, nodeGroup) ==> (forall k :: old(Jlen) <= k && k < Jlen && (Jkind[k] == K_UPDATE || Jkind[k] == K_DELETE || Jkind[k] == C_DELNODE) ==> LNby[Jname[k]] != nil && !unsched(LNby[Jname[k]]))
 //@   ensures [C01,C10] forall k :: old(Jlen) <= k && k < Jlen && (Jkind[k] == K_DELETE || Jkind[k] == C_DELNODE) ==> LNby[Jname[k]] != nil && delOK(LNby[Jname[k]], nodeGroup, clock)
 //@   ensures [C01] Jlen > old(Jlen) ==> (forall i, j :: 0 <= i && i < len(k8s.listedNodes()) && 0 <= j && j < len(k8s.listedPods()) && k8s.nodeEmptyIn(k8s.listedNodes()[i], nodeGroup.NodeInfoMap) && k8s.listedPods()[j].Spec.NodeName == k8s.listedNodes()[i].Name ==> k8s.isDS(k8s.listedPods()[j]))
+
+// ---------------------------------------------------------------- RunOnce: one scan of all groups
+
+// ctlInv(c): every configured group has a state satisfying groupInv
+//@ spec ctlInv(c *Controller) bool = c != nil && c.Client != nil && c.cloudProvider != nil && c.Opts.CloudProviderBuilder != nil && (forall i :: 0 <= i && i < len(c.Opts.NodeGroups) ==> has(c.nodeGroups, c.Opts.NodeGroups[i].Name) && birth(c.nodeGroups[c.Opts.NodeGroups[i].Name]) < now && groupInv(c.nodeGroups[c.Opts.NodeGroups[i].Name]))
+//@ ghost nScans int
+
+// C12/C20: a scan of all groups returns an error only for the not-in-group condition, a provider that
+// cannot be rebuilt, or a cloud group that disappeared; any other failure of one group is contained and the
+// later groups are still processed (nScans counts scaleNodeGroup calls). The controller invariant holds
+// again after every scan that returns nil, so the next scan starts from a valid state. C03: with
+// auto-discovery the bounds used are the cloud group's own, refreshed each scan.
+//@ func (*Controller).RunOnce(c) (err)
+//@   requires ctlInv(c)
+//@   requires [C03] forall i, j :: 0 <= i && i < j && j < len(c.Opts.NodeGroups) ==> c.nodeGroups[c.Opts.NodeGroups[i].Name] != c.nodeGroups[c.Opts.NodeGroups[j].Name]
+//@   modifies Jlen, Jkind, Jname, Jnode, Jok, Jesc, Jnum, Jerr, clock, nTaintOK, nUntaintOK, getSeen, LNb, LNo, LNl, LNby, LPb, LPo, LPl, nScans, nBuildFail, c.cloudProvider
+//@   modifies mapvals(c.nodeGroups), allof("[]string")
+//@   ensures [C20] err == nil ==> ctlInv(c)
+//@   ensures [C12,C20] err != nil && nBuildFail == old(nBuildFail) ==> isNotInGroup(err) || isPlainErr(err)
+//@   ensures [C20] err != nil ==> isNotInGroup(err)
+//@   ensures [C12] err == nil ==> nScans == old(nScans) + len(c.Opts.NodeGroups)
+//@   ensures [C19] forall k :: old(Jlen) <= k && k < Jlen && Jkind[k] == C_DELNODE && isNotInGroup(Jerr[k]) ==> isNotInGroup(err)
+//@   ensures [C03] err == nil ==> (forall i :: 0 <= i && i < len(c.Opts.NodeGroups) && c.Opts.NodeGroups[i].MinNodes == 0 && c.Opts.NodeGroups[i].MaxNodes == 0 ==> c.nodeGroups[c.Opts.NodeGroups[i].Name].Opts.MinNodes == cmin(c.Opts.NodeGroups[i].CloudProviderGroupName) && c.nodeGroups[c.Opts.NodeGroups[i].Name].Opts.MaxNodes == cmax(c.Opts.NodeGroups[i].CloudProviderGroupName))
+//@ loop #0
+//@   modifies c.cloudProvider
+//@   invariant ctlInv(c) && nBuildFail == old(nBuildFail) && Jlen == old(Jlen) && nScans == old(nScans)
+//@   decreases 2 - i
+//@ loop #1
+//@   modifies mapvals(c.nodeGroups), allof("[]string")
+//@   invariant ctlInv(c)
+//@   invariant Jlen >= old(Jlen)
+//@   invariant nScans == old(nScans) + #i
+//@   invariant nBuildFail == old(nBuildFail)
+//@   invariant [C19] forall k :: old(Jlen) <= k && k < Jlen && Jkind[k] == C_DELNODE ==> !isNotInGroup(Jerr[k])
+//@   invariant [C03] forall i :: 0 <= i && i < #i && c.Opts.NodeGroups[i].MinNodes == 0 && c.Opts.NodeGroups[i].MaxNodes == 0 ==> c.nodeGroups[c.Opts.NodeGroups[i].Name].Opts.MinNodes == cmin(c.Opts.NodeGroups[i].CloudProviderGroupName) && c.nodeGroups[c.Opts.NodeGroups[i].Name].Opts.MaxNodes == cmax(c.Opts.NodeGroups[i].CloudProviderGroupName)
